@@ -210,3 +210,138 @@ Definition expected_metrics : list (string * string) :=
     ("track_future", "cdfd0717ad5a99cdedac");
     ("track_future_noop", "9e2003a9122286e94c33");
     ("<module>", "4cd5416bfb50d50b09ef") ].
+
+Definition expected_metrics_prom : list (string * string) :=
+  [ ("<class PrometheusMetrics>", "5bc13959d3466eb424f9");
+    ("<module>", "84cb6a3b5a3d03593d23") ].
+
+Definition expected_fproxy : list (string * string) :=
+  [ ("ProxyFuture.__init__", "33057a0b3256356fa717");
+    ("ProxyFuture.__result", "f36e6ccbdeb3a1bd4848");
+    ("ProxyFuture.__len__", "2be6745fcf7a09778727");
+    ("ProxyFuture.__getattr__", "97a87f531782707c425b");
+    ("ProxyFuture.__getitem__", "a52a9addcc1f548fabc8");
+    ("ProxyFuture.__setitem__", "657937247f4d6f8abf0d");
+    ("ProxyFuture.__delitem__", "1e81ee6d84cf59d79a00");
+    ("ProxyFuture.__iter__", "eab1aec7dc4923b46fce");
+    ("ProxyFuture.__contains__", "adb81feff3aba0ed9d95");
+    ("ProxyFuture.__add__", "e93d19c357d9945f3149");
+    ("ProxyFuture.__sub__", "985ad11b0c9b4c5d1730");
+    ("ProxyFuture.__mul__", "fbfdcb8d02be479b6fc6");
+    ("ProxyFuture.__div__", "e400a2b9cbfafc1c5e96");
+    ("ProxyFuture.__truediv__", "c9770fd8924858213177");
+    ("ProxyFuture.__floordiv__", "f55122aea321c3527343");
+    ("ProxyFuture.__mod__", "f46cabdfb36b6264824b");
+    ("ProxyFuture.__divmod__", "ba2c6acd303ad9e2c16d");
+    ("ProxyFuture.__pow__", "842648ac16ad026dbe6a");
+    ("ProxyFuture.__lshift__", "445d3fe3ebcf3b554caa");
+    ("ProxyFuture.__rshift__", "00d4c7ea58968e158432");
+    ("ProxyFuture.__and__", "e8b011bde36550485dfb");
+    ("ProxyFuture.__xor__", "de2a6ea332ca744c0e04");
+    ("ProxyFuture.__or__", "7722d7dc5df3ee5ba477");
+    ("ProxyFuture.__neg__", "28f2e54f7e74ba804364");
+    ("ProxyFuture.__pos__", "ed04daed0bc92879a51d");
+    ("ProxyFuture.__abs__", "10310bc3c0752c52c348");
+    ("ProxyFuture.__invert__", "fcd5ddfb18bb011df8f8");
+    ("ProxyFuture.__complex__", "9b85b02db2a5460196d4");
+    ("ProxyFuture.__int__", "c7140edacac3a5a66ef0");
+    ("ProxyFuture.__float__", "6258a0dfd69630e128e3");
+    ("ProxyFuture.__round__", "2dae4856bfcd6e7c67ce");
+    ("ProxyFuture.__trunc__", "30c4447fdd38d2e69243");
+    ("ProxyFuture.__floor__", "052565b6d827da2d27f8");
+    ("ProxyFuture.__ceil__", "d36674198f9eeff1b1bd");
+    ("ProxyFuture.__bool__", "e516399f8636e866fe1a");
+    ("ProxyFuture.__nonzero__", "899e52e91e2deb54702d");
+    ("<class ProxyFuture>", "40c73a04bc99b8037aa1");
+    ("f_proxy", "dfc0fd909ca3da6312de");
+    ("<module>", "e3b0c44298fc1c149afb") ].
+
+Definition expected_fnocancel : list (string * string) :=
+  [ ("NoCancelFuture.cancel", "d0f7ac8c65614db8907e");
+    ("<class NoCancelFuture>", "4cfbec42b991c9734d80");
+    ("f_nocancel", "7950aa7c9462e690dec3");
+    ("<module>", "e3b0c44298fc1c149afb") ].
+
+Definition expected_fapply : list (string * string) :=
+  [ ("f_apply", "2cb3a7a635e8c356504b");
+    ("_wrap_args", "742766d158d272ce4fae");
+    ("_wrapped_f_apply", "3c94580ce730d4d8ad08");
+    ("<module>", "f206cb5340f8d42bb65b") ].
+
+Definition expected_fmap : list (string * string) :=
+  [ ("f_map", "637d3bdb9e72b1b2cfb2");
+    ("f_flat_map", "2f6e56415e8b7271eeb6");
+    ("<module>", "e3b0c44298fc1c149afb") ].
+
+Definition expected_fsequence : list (string * string) :=
+  [ ("f_sequence", "fa3fe0293a3a7201574f");
+    ("f_traverse", "5cb6f58faeee5435a80d");
+    ("<module>", "e3b0c44298fc1c149afb") ].
+
+Definition expected_ftimeout : list (string * string) :=
+  [ ("f_timeout", "09d0c939ff51faf46d16");
+    ("timeout_executor", "578bdda3d6b5b52f6eaf");
+    ("<module>", "e322704a7149219757c1") ].
+
+Definition expected_fcheck : list (string * string) :=
+  [ ("ensure_futures", "a8d42a0e4529dea8ed8f");
+    ("ensure_future", "3a4d6a3a81c7a6ab5420");
+    ("is_future", "284aaf26c4c784957ed8");
+    ("<module>", "e3b0c44298fc1c149afb") ].
+
+Definition expected_bind : list (string * string) :=
+  [ ("BoundCallable.__init__", "a7ac852ee16e95990910");
+    ("BoundCallable.__call__", "497ebd764341e3da3e02");
+    ("<class BoundCallable>", "1f040f2d9056c1e4fe40");
+    ("<module>", "e3b0c44298fc1c149afb") ].
+
+Definition expected_wrap : list (string * string) :=
+  [ ("CanBind.bind", "36c2fd2474a22f460e3f");
+    ("CanBind.flat_bind", "4de03ff06912e99695d9");
+    ("<class CanBind>", "6575991309afb9ac97bd");
+    ("CanCustomize.__propagate_name", "4c3a14927286976433b9");
+    ("CanCustomize.with_retry", "5b7e7e6833d015d1db60");
+    ("CanCustomize.with_map", "23d9b85f36968b7be103");
+    ("CanCustomize.with_flat_map", "82ffb070cd904fb63718");
+    ("CanCustomize.with_poll", "65c5467bd06c39d927e8");
+    ("CanCustomize.with_timeout", "4d54d63391df6d5074d6");
+    ("CanCustomize.with_throttle", "767e7c5b46391c52ff47");
+    ("CanCustomize.with_cancel_on_shutdown", "0d8bfeb0970f53a55e2f");
+    ("CanCustomize.with_asyncio", "6e2a48146c01946e3882");
+    ("<class CanCustomize>", "f7f9e317085e50c4f34a");
+    ("<class CanCustomizeBind>", "208934573df02db5838e");
+    ("<module>", "e3b0c44298fc1c149afb") ].
+
+Definition expected_wrapped : list (string * string) :=
+  [ ("CustomizableThreadPoolExecutor.__init__", "7b967a8b921b81fc7c8d");
+    ("CustomizableThreadPoolExecutor.shutdown", "f024f1d9e334f5f76700");
+    ("CustomizableThreadPoolExecutor.submit", "da05dbea51cb6564ab2d");
+    ("<class CustomizableThreadPoolExecutor>", "da70a3aa0609c3d90fd4");
+    ("CustomizableProcessPoolExecutor.__init__", "c16055b7d1d5940c2276");
+    ("<class CustomizableProcessPoolExecutor>", "c9dafe9381a8b4a9345a");
+    ("<module>", "e3b0c44298fc1c149afb") ].
+
+Definition expected_executors : list (string * string) :=
+  [ ("Executors.bind", "cf2d0424e49465fa042c");
+    ("Executors.flat_bind", "7caf15b3d1b4ee4b9021");
+    ("Executors.thread_pool", "71b87cda1bb47d7074b4");
+    ("Executors.process_pool", "38be820bfc73ed2fe4b3");
+    ("Executors.sync", "c303e4115d0d482765a5");
+    ("Executors._customize", "0ee20dd474f21d8513fc");
+    ("Executors.with_retry", "1d6d6aee1a7ded0aa6c6");
+    ("Executors.with_map", "b67b8c984cead0bfb648");
+    ("Executors.with_flat_map", "8ac0318b95f3ac7a74ef");
+    ("Executors.with_poll", "00fe2e50b25ea5ce9865");
+    ("Executors.with_timeout", "f639ed91ce7e82ea12f7");
+    ("Executors.with_throttle", "cfbc6f56572bd9051d10");
+    ("Executors.with_cancel_on_shutdown", "e494dce599e8e18ff687");
+    ("Executors.with_asyncio", "1a08d50f66427760ce85");
+    ("<class Executors>", "3cfc2f6c667310f0f7b4");
+    ("<module>", "e3b0c44298fc1c149afb") ].
+
+Definition expected_sync : list (string * string) :=
+  [ ("SyncExecutor.__init__", "957fe250daf99d701d5d");
+    ("SyncExecutor.shutdown", "0a8912b5c3591f3afaf7");
+    ("SyncExecutor.submit", "8b3dcd8ce44b32717ac3");
+    ("<class SyncExecutor>", "5f9d1eb35976f6ca983d");
+    ("<module>", "e3b0c44298fc1c149afb") ].
